@@ -20,11 +20,14 @@ RULE = ("(1) pairs of Magnitudes from a value grid (either sign, arrays, zero wh
         "dimensions and by 'relative uncertainty = that of the same operation on the bare magnitudes'; (4) histories: each "
         "Magnitude/Quantity is created once and reused in 3-7 operations (arrays and scalars, every operator, a op a), model "
         "and oracle always get the creation-time state, operands re-read at the end; conversions include zero readings and "
-        "targets given as BaseUnits/dict/text/Unit().x/reference Quantity of magnitude != 1. non-trivial = at least one operand carries an error and (a negative "
+        "targets given as BaseUnits/dict/text/Unit().x/reference Quantity of magnitude != 1; (5) Decimal magnitudes with Decimal/"
+        "float/int exact factors of either sign; constructors with the unit given as an exact or uncertain Quantity. non-trivial = at least one operand carries an error and (a negative "
         "value/factor/exponent, an array, or different units) ; distinct = canonical JSON of the input")
 ASSUMPTIONS = [
-    "operand errors are non-negative (abse >= 0, rele >= 0) as the property presupposes; magnitudes are floats or float "
-    "arrays (Decimal mode outside the model)",
+    "operand errors are non-negative (abse >= 0, rele >= 0) as the property presupposes; magnitudes are floats, float "
+    "arrays, and (Magnitude stream) scalar decimal.Decimal values with Decimal errors: the code's Decimal branches only wrap "
+    "the operands in Decimal(), so the same model applies and results are compared through float() (1e-9); a Decimal combined "
+    "with a float where the library raises TypeError today (Decimal error x float factor) is counted and not judged",
     "first-order lower bounds are judged for positive values whose error interval of the divisor excludes zero (db < b); "
     "without that the bound is false for any sensible propagation rule (see C08_first_order_div_needs_interval)",
     "** with an error attached is judged for non-zero values (the code divides by |value|; 0 gives nan) and fractional "
@@ -37,7 +40,11 @@ ASSUMPTIONS = [
     "the error over unchanged; the property does not speak about them)",
     "floats compared with relative tolerance 1e-9; np.abs/np.max/np.full_like taken as the real functions; for arrays "
     "np.max([maxerror,minerror]) is the maximum over all elements, as written",
-] + U.ASSUMPTIONS[:1]
+    "histories: model and oracle get the state the operands were created with; operations on Magnitude/Quantity are pure in "
+    "the model (Quantity.to, the only in-place method, is not part of histories)",
+    "fold-relative oracle: the relative uncertainty of * / ** neg and constructors equals that of the same operation on bare "
+    "Magnitudes up to 1e-7 (unit factors are exact positive floats; both sides evaluate the same formula)",
+] + U.ASSUMPTIONS[:1] + U.ASSUMPTIONS[-4:]
 EXPLANATION = ("theorems over any linearly ordered field: non-negativity of every operation's error, sum rule, scaling, "
                "first-order lower bounds, linear conversion keeps the relative error, exactness; model run against the real "
                "classes on every run")
@@ -417,6 +424,10 @@ QTY_CORPUS = [
     {"op": "pow_int", "lv": 2.0, "lu": U.U(("k", "m", 1, 1), ("", "m", -1, 1), ("", "%", 1, 1)), "le": 0.1, "p": [2, 1]},
     {"op": "new", "lv": 4.0, "lu": U.U(("k", "m", 1, 1), ("", "m", -1, 1)), "le": 0.2},
     {"op": "new", "lv": -4.0, "lu": U.U(("", "J", 1, 1), ("", "erg", -1, 1)), "le": 0.2},
+    # the unit given as an uncertain quantity
+    {"op": "newq", "lv": 4.0, "lu": [], "le": 0.2, "rv": 2.5, "ru": U.U(("c", "m", 1, 1)), "re": 0.1},
+    {"op": "newq", "lv": -3.0, "lu": [], "rv": 2.5, "ru": U.U(("k", "m", 1, 1)), "re": 0.1},
+    {"op": "newq", "lv": [1.0, 2.0], "lu": [], "le": 0.1, "rv": 2.0, "ru": U.U(("k", "m", 1, 1), ("", "m", -1, 1)), "re": 0.2},
     # the same object on both sides
     {"op": "mul", "lv": 12.0, "lu": U.U(("c", "m", 1, 1)), "le": 0.2, "same": True, "rv": 12.0, "ru": U.U(("c", "m", 1, 1)), "re": 0.2},
     {"op": "div", "lv": 12.0, "lu": U.U(("c", "m", 1, 1)), "le": 0.2, "same": True, "rv": 12.0, "ru": U.U(("c", "m", 1, 1)), "re": 0.2},
@@ -503,7 +514,7 @@ def fold_keeps_relative(ctx, name, c, req, imp, what):
     try:
         l = bare(req["l"])
         r = l if c.get("same") else (bare(req["r"]) if "r" in req else None)
-        if op == "mul":
+        if op in ("mul", "newq"):
             m = l * r
         elif op == "div":
             m = l / r
@@ -535,6 +546,116 @@ def fold_keeps_relative(ctx, name, c, req, imp, what):
                       "%s: relative uncertainty is %s, the same operation on the bare magnitudes gives %s "
                       "(unit factors are exact, they must scale error and value alike)" % (what, r1, r0),
                       {"case": c, "impl": imp, "bare": {"v": mv, "e": me}})
+
+
+# ---------------------------------------------------------------- stream 5: Decimal magnitudes
+DVALS = ["4", "-2.5", "0.5", "12", "-3", "7", "1000", "0.125", "-40", "2.5"]
+DFACTORS = [("D", "-2"), ("D", "2"), ("D", "-0.5"), ("D", "3"), ("D", "-4"), ("float", -2.0), ("float", 2.0), ("int", -3), ("int", 2)]
+
+
+def gen_dec_mag(rng, err_p=0.85):
+    from decimal import Decimal as D
+    v = rng.choice(DVALS)
+    m = {"dv": v}
+    k = rng.random()
+    if k < err_p * 0.15:
+        m["rele"] = rng.choice([1, 5, 10])
+    elif k < err_p:
+        m["dabse"] = str(abs(D(v)) * D(rng.choice(["0.01", "0.05", "0.1", "0.3"])))
+    return m
+
+
+def mk_dec(spec):
+    from decimal import Decimal as D
+    from scinumtools.units import Magnitude
+    if "num" in spec:
+        kind, x = spec["num"]
+        return D(x) if kind == "D" else x
+    return Magnitude(D(spec["dv"]), abse=(D(spec["dabse"]) if "dabse" in spec else None), rele=spec.get("rele"))
+
+
+def dec_state(m):
+    from scinumtools.units import Magnitude
+    if not isinstance(m, Magnitude):
+        return {"num": float(m)}
+    return {"v": float(m.value), "e": None if m.error is None else float(m.error)}
+
+
+DEC_CORPUS = [
+    {"op": "mul", "l": {"dv": "4", "dabse": "0.05"}, "r": {"num": ["D", "-2"]}},
+    {"op": "mul", "l": {"num": ["D", "-0.5"]}, "r": {"dv": "4", "dabse": "0.05"}},
+    {"op": "div", "l": {"dv": "4", "dabse": "0.05"}, "r": {"num": ["D", "-2"]}},
+    {"op": "mul", "l": {"dv": "4", "dabse": "0.05"}, "r": {"dv": "-2"}},
+    {"op": "add", "l": {"dv": "10", "dabse": "0.2"}, "r": {"dv": "-8", "dabse": "0.10"}},
+    {"op": "sub", "l": {"dv": "4", "dabse": "0.05"}, "r": {"num": ["float", -2.0]}},
+    {"op": "mul", "l": {"dv": "4", "dabse": "0.05"}, "r": {"dv": "7", "dabse": "0.1"}},
+    {"op": "div", "l": {"dv": "12", "dabse": "0.2"}, "r": {"dv": "4", "dabse": "0.1"}},
+    {"op": "pow", "l": {"dv": "-2.5", "dabse": "0.25"}, "p": [-1, 1], "float": False},
+    {"op": "neg", "l": {"dv": "-2.5", "rele": 10}},
+    {"op": "mul", "l": {"dv": "4", "dabse": "0.05"}, "r": {"num": ["float", -2.0]}},   # Decimal error x float: TypeError today
+]
+
+
+def gen_dec_case(rng):
+    r = rng.random()
+    if r < 0.45:
+        op = rng.choice(["add", "sub", "mul", "div", "mul", "div"])
+        m = gen_dec_mag(rng, 0.95)
+        f = {"num": list(rng.choice(DFACTORS))}
+        return {"op": op, "l": m, "r": f} if rng.random() < 0.5 else {"op": op, "l": f, "r": m}
+    if r < 0.8:
+        op = rng.choice(["add", "sub", "mul", "div"])
+        return {"op": op, "l": gen_dec_mag(rng), "r": gen_dec_mag(rng)}
+    if r < 0.88:
+        return {"op": "neg", "l": gen_dec_mag(rng, 0.95)}
+    return {"op": "pow", "l": gen_dec_mag(rng, 0.95), "p": [rng.choice([2, 3, -1, -2]), 1], "float": False}
+
+
+def decimal_stream(ctx, count):
+    """Magnitudes whose value and error are decimal.Decimal (a documented input type), with Decimal / float / int exact
+    factors of either sign. The model is the same (the Decimal branches of the code only wrap the operands in Decimal());
+    results are compared through float() with the usual tolerance."""
+    cases = [json.loads(json.dumps(c)) for c in DEC_CORPUS] + [gen_dec_case(ctx.rng) for _ in range(count)]
+    kept, reqs, imps = [], [], []
+    for c in cases:
+        try:
+            l = mk_dec(c["l"])
+            r = mk_dec(c["r"]) if "r" in c else None
+        except Exception:
+            ctx.count("decimal.construction-failed")
+            continue
+        req = {"k": "mag", "op": c["op"], "l": dec_state(l)}
+        if r is not None:
+            req["r"] = dec_state(r)
+        try:
+            if c["op"] == "add":
+                res = l + r
+            elif c["op"] == "sub":
+                res = l - r
+            elif c["op"] == "mul":
+                res = l * r
+            elif c["op"] == "div":
+                res = l / r
+            elif c["op"] == "neg":
+                res = -l
+            else:
+                req["p"] = [c["p"][0], 1]
+                res = l ** c["p"][0]
+            imp = U.mark_nonfinite({"v": U.fl(float(res.value)), "e": None if res.error is None else U.fl(float(res.error))})
+        except TypeError:
+            # Decimal combined with a float (e.g. a Decimal error times a float factor) is not supported by the
+            # library today: it raises instead of returning a number; nothing to judge
+            ctx.count("decimal.unsupported-mix(TypeError)")
+            continue
+        except Exception as ex:
+            ctx.count("decimal.raised." + type(ex).__name__)
+            continue
+        kept.append(c)
+        reqs.append(req)
+        imps.append(imp)
+    answers = U.ask_many(ctx, reqs)
+    for c, req, imp, ans in zip(kept, reqs, imps, answers):
+        judge_mag(ctx, c, req, imp, ans, stream="decimal")
 
 
 # ---------------------------------------------------------------- stream 4: histories that reuse the same objects
@@ -703,6 +824,7 @@ def correspond(ctx: Ctx):
     to_stream(ctx, 6000 if th else 1200)
     qty_stream(ctx, 5000 if th else 1000)
     history_stream(ctx, 1500 if th else 300)
+    decimal_stream(ctx, 2500 if th else 500)
 
 
 def replay(ctx, payload):
